@@ -825,3 +825,40 @@ def c03_j(ctx):
         ctx.check(ok, eo, 'all nodes are visited', 'for node in sort_order',
                   'the pruning loop does not run over all nodes of the graph', fn=eo,
                   node=lp or c)
+
+
+@obligation('C03-k', 'T2 T11', 'a loader visits every node it is responsible for: its loops are '
+            'never left early', floor=3,
+            necessary='a loop that stops at the first node it has nothing to do for leaves the '
+                      'values of the later nodes unloaded: their operations run although a value '
+                      'was supplied')
+def c03_k(ctx):
+    lm = ctx.repo.module('elfi.loader')
+    n = 0
+    for c in lm.classes.values():
+        ld = c.methods.get('load')
+        if ld is None:
+            continue
+        loops = [l for l in own_nodes(ld.node) if isinstance(l, (ast.For, ast.While))]
+        for l in loops:
+            n += 1
+            early = [s for s in ast.walk(l) if isinstance(s, ast.Break) or
+                     (isinstance(s, ast.Return))]
+            early = [s for s in early if enclosing_loop(s) is l]
+            ctx.check(not early, ld, 'loop over the nodes runs to the end',
+                      'only `continue` skips a node',
+                      '{}.load leaves its loop early ({}): nodes after the first skipped one '
+                      'are not loaded'.format(c.name, type(early[0]).__name__.lower()
+                                              if early else ''), fn=ld,
+                      node=early[0] if early else l)
+    if n < 3:
+        ctx.undecided('expected loader loops, found {}'.format(n))
+
+
+# become() must hand over named parents as well (= C14-h).
+@obligation('C03-l', 'T7 T8', 'a node that becomes another takes over all its incoming edges with '
+            'their data (shared with C14-h)', floor=2,
+            necessary='named parents dropped by become() are not passed to the operation')
+def c03_l(ctx):
+    from . import C14 as _C14
+    return _C14.c14_h(ctx)
